@@ -208,6 +208,14 @@ func Run(t *testing.T, sc *Scenario, prefix []int, expect []uint64) *Exec {
 		s := vsched.New()
 		vsched.Install(s)
 		defer vsched.Uninstall()
+		vsched.TakePanics()
+		defer func() {
+			if ps := vsched.TakePanics(); len(ps) > 0 {
+				e.mu.Lock()
+				e.Panics = append(e.Panics, ps...)
+				e.mu.Unlock()
+			}
+		}()
 		threads, finish := sc.Setup(e)
 		synctest.Wait()
 		s.SetFree(false)
